@@ -11,6 +11,7 @@ from vlib.harness import V, derive_seed, run_shards
 from vlib.lib import call
 
 PROPERTY = 'C07'
+AMBIENT_PASS = True        # the same search once more under unusual ambient settings (vlib.run.AMBIENT_SETTINGS)
 RULE = ('codes generated from the syntax tree of PAT_EVENT_CODE (weighted over all alternatives; alternative coverage '
         'reported), with surrounding whitespace, each with up to 4 spelling variants (case / spacing / k-kg-g suffix / '
         'trailing zeros, kept only when still accepted), single-edit near misses and arbitrary text for the refusal clause; '
